@@ -542,11 +542,17 @@ impl<D: Doc> Node<'_, D> {
     replacer: R,
   ) -> Vec<Edit<D>> {
     // TODO: support nested matches like Some(Some(1)) with pattern Some($A)
-    Visitor::new(&matcher)
-      .reentrant(false)
-      .visit(self.clone())
-      .map(|matched| matched.make_edit(&matcher, &replacer))
-      .collect()
+    let mut edits: Vec<Edit<D>> = vec![];
+    for matched in Visitor::new(&matcher).reentrant(false).visit(self.clone()) {
+      let edit = matched.make_edit(&matcher, &replacer);
+      // a replacer can widen the replaced range (e.g. expandEnd), keep edits disjoint
+      let end = edits.last().map(|e| e.position + e.deleted_length);
+      if end.is_some_and(|end| edit.position < end) {
+        continue;
+      }
+      edits.push(edit);
+    }
+    edits
   }
 
   pub fn after(&self) -> Edit<D> {
